@@ -508,7 +508,9 @@ impl<'a> Sim<'a> {
 
     /// engine.synthesize in the requested input form
     fn do_synth(env: &mut Env, eng: &Engine, utt: &Utt, form: Form, bad: Option<(usize, u8)>) -> Result<Result<Result<Vec<f64>, String>, PanicNote>, HarnessError> {
-        let budget = 50_000_000u64;
+        // deterministic fuel: generous (a synthesis of 25 k frames with the postfilter on passes ~10^8 hook
+        // sites); it only has to end a call that makes no progress at all
+        let budget = 1_000_000_000u64;
         Self::labels_call(
             env,
             eng,
@@ -538,7 +540,7 @@ impl<'a> Sim<'a> {
             utt,
             Form::Slice,
             None,
-            |eng, s| with_fuel(50_000_000, || guarded(|| eng.generator(s).map_err(|e| e.to_string()))),
+            |eng, s| with_fuel(1_000_000_000, || guarded(|| eng.generator(s).map_err(|e| e.to_string()))),
             |_, _| unreachable!(),
         )
     }
@@ -1508,7 +1510,7 @@ impl<'a> Sim<'a> {
         let mut buf = vec![f64::from_bits(POISON); len];
         self.stats.api_calls += 1;
         let gen = &mut gs.gen;
-        let r = with_fuel(4_000_000 + 64 * fp as u64, || guarded(|| gen.generate_step(&mut buf)));
+        let r = with_fuel(4_000_000 + 64 * fp as u64 + 65_536, || guarded(|| gen.generate_step(&mut buf)));
         gs.steps += 1;
         self.digest = crate::rng::mix(&[self.digest, hash_f64s(&buf), match &r { Ok(n) => *n as u64, Err(_) => u64::MAX }]);
         gs.bufsizes_seen |= if extra == 0 { 1 } else if extra == 2 * fp { 4 } else { 2 };
@@ -1607,7 +1609,8 @@ impl<'a> Sim<'a> {
         self.stats.api_calls += 1;
         let gen = gs.gen;
         let remaining = (frames - cursor) as u64 * fp as u64;
-        let r = with_fuel(4_000_000 + 64 * remaining, || guarded(move || gen.generate_all()));
+        // per remaining frame: fperiod samples plus up to a few thousand hook sites of the postfilter (c2ir / freqt)
+        let r = with_fuel(4_000_000 + 64 * remaining + 65_536 * (frames - cursor) as u64, || guarded(move || gen.generate_all()));
         self.trace_hash = crate::rng::mix(&[self.trace_hash, 0x60]);
         let mk = |oracle: &'static str, class: String, detail: String| Stop::Violation(Violation { oracle, class, detail, op_index: opi });
         if cursor == 0 {
